@@ -92,18 +92,20 @@ func (u *Unmarshaler) fillMap(fieldType reflect.Type, value reflect.Value,
 		return errValueNotSettable
 	}
 
-	fieldKeyType := fieldType.Key()
-	fieldElemType := fieldType.Elem()
+	// fieldType can be a pointer to a map
+	derefedType := Deref(fieldType)
+	fieldKeyType := derefedType.Key()
+	fieldElemType := derefedType.Elem()
 	targetValue, err := u.generateMap(fieldKeyType, fieldElemType, mapValue, fullName)
 	if err != nil {
 		return err
 	}
 
-	if !targetValue.Type().AssignableTo(value.Type()) {
+	if !targetValue.Type().AssignableTo(derefedType) {
 		return errTypeMismatch
 	}
 
-	value.Set(targetValue)
+	setDerefedValue(value, targetValue)
 	return nil
 }
 
@@ -142,11 +144,12 @@ func (u *Unmarshaler) fillSlice(fieldType reflect.Type, value reflect.Value,
 		return nil
 	}
 
-	baseType := fieldType.Elem()
+	// fieldType can be a pointer to a slice
+	baseType := Deref(fieldType).Elem()
 	dereffedBaseType := Deref(baseType)
 	dereffedBaseKind := dereffedBaseType.Kind()
 	if refValue.Len() == 0 {
-		value.Set(reflect.MakeSlice(reflect.SliceOf(baseType), 0, 0))
+		setDerefedValue(value, reflect.MakeSlice(reflect.SliceOf(baseType), 0, 0))
 		return nil
 	}
 
@@ -179,7 +182,7 @@ func (u *Unmarshaler) fillSlice(fieldType reflect.Type, value reflect.Value,
 	}
 
 	if valid {
-		value.Set(conv)
+		setDerefedValue(value, conv)
 	}
 
 	return nil
@@ -357,7 +360,7 @@ func (u *Unmarshaler) generateMap(keyType, elemType reflect.Type, mapValue any,
 				return emptyValue, err
 			}
 
-			targetValue.SetMapIndex(key, target.Elem())
+			SetMapIndexValue(elemType, targetValue, key, target.Elem())
 		case reflect.Struct:
 			keythMap, ok := keythData.(map[string]any)
 			if !ok {
@@ -376,12 +379,13 @@ func (u *Unmarshaler) generateMap(keyType, elemType reflect.Type, mapValue any,
 				return emptyValue, errTypeMismatch
 			}
 
-			innerValue, err := u.generateMap(elemType.Key(), elemType.Elem(), keythMap, mapFullName)
+			innerValue, err := u.generateMap(dereffedElemType.Key(), dereffedElemType.Elem(),
+				keythMap, mapFullName)
 			if err != nil {
 				return emptyValue, err
 			}
 
-			targetValue.SetMapIndex(key, innerValue)
+			SetMapIndexValue(elemType, targetValue, key, innerValue)
 		default:
 			switch v := keythData.(type) {
 			case bool:
@@ -389,7 +393,7 @@ func (u *Unmarshaler) generateMap(keyType, elemType reflect.Type, mapValue any,
 					return emptyValue, errTypeMismatch
 				}
 
-				targetValue.SetMapIndex(key, reflect.ValueOf(v))
+				SetMapIndexValue(elemType, targetValue, key, reflect.ValueOf(v))
 			case string:
 				if dereffedElemKind != reflect.String {
 					return emptyValue, errTypeMismatch
@@ -400,14 +404,14 @@ func (u *Unmarshaler) generateMap(keyType, elemType reflect.Type, mapValue any,
 					return emptyValue, errTypeMismatch
 				}
 
-				targetValue.SetMapIndex(key, val)
+				SetMapIndexValue(elemType, targetValue, key, val)
 			case json.Number:
 				target := reflect.New(dereffedElemType)
 				if err := setValueFromString(dereffedElemKind, target.Elem(), v.String()); err != nil {
 					return emptyValue, err
 				}
 
-				targetValue.SetMapIndex(key, target.Elem())
+				SetMapIndexValue(elemType, targetValue, key, target.Elem())
 			default:
 				if dereffedElemKind != keythValue.Kind() {
 					return emptyValue, errTypeMismatch
@@ -1226,6 +1230,15 @@ func readKeys(key string, opaque bool) []string {
 	cacheKeysLock.Unlock()
 
 	return keys
+}
+
+// setDerefedValue sets target into value, value can be a pointer (of any depth) to the type of target.
+func setDerefedValue(value, target reflect.Value) {
+	if value.Kind() == reflect.Ptr {
+		SetValue(value.Type(), value, target)
+	} else {
+		value.Set(target)
+	}
 }
 
 func setSameKindValue(targetType reflect.Type, target reflect.Value, value any) {
